@@ -33,6 +33,7 @@ def run(ctx, rep):
         'counted references is not decided.')
     rep.rule('C03.1', 'bit 63 of the entry stored by map_cluster / map_l2_offset is the constant 1')
     rep.rule('C03.2', 'the Option returned by map_cluster (displaced allocation) is consumed, not dropped')
+    rep.rule('C03.5', 'inside a loop the reftable entry handed to get_refblock is computed in the same iteration as the host cluster it belongs to')
     rep.rule('C03.3', 'free_clusters arguments derive from the removed reference (or a same-section allocation / replaced table); count is not constant 0')
     ev = Evaluator(f)
     h = S(['h%d' % i if i < 56 else '0' for i in range(64)])
@@ -97,6 +98,7 @@ def run(ctx, rep):
                 rep.violation('C03.3', 'C03.3:%s:source' % short(b.path), b.where(bi),
                               '%s releases clusters whose address does not derive from the reference being removed' % short(b.path))
     rep.floor('free_clusters call sites', n, 6)
+    stale_entry_rule(f, P, rep)
     zc = zero_count_releases(f, P)
     for (fn, where, ok) in zc:
         rep.ob('C03.3', 'release count in %s at %s' % (fn, where), ok, 'count is not the constant 0 on any path')
@@ -232,3 +234,59 @@ def zero_count_releases(f, P):
         for (fn, where), ok in sorted(d.sites.items()):
             out.append((fn, where, ok))
     return out
+
+
+def stale_entry_rule(f, P, rep):
+    """get_refblock(cls, entry): when the host cluster changes per loop iteration, the reftable entry must be
+    looked up per iteration too (an entry of an earlier cluster loads the wrong refcount block for clusters
+    behind a refcount-block boundary)"""
+    n = 0
+    for b in f.body_list:
+        if '::tests::' in b.path or not b.is_coroutine:
+            continue
+        for bi, t in b.calls():
+            if not (t.get('fn') or '').endswith('::get_refblock') or len(t['args']) < 3:
+                continue
+            n += 1
+            loop = {x for x in b.reachable(bi) if bi in b.reachable(x)}
+            if not loop:
+                rep.ob('C03.5', 'get_refblock in %s at %s' % (short(b.path), b.where(bi)), True, 'not in a loop')
+                continue
+
+            def def_blocks(o, depth=0, seen=None):
+                seen = seen if seen is not None else set()
+                out = set()
+                if o['k'] not in ('copy', 'move') or depth > 6:
+                    return out
+                l = o['pl']['l']
+                if l in seen:
+                    return out
+                seen.add(l)
+                for d in P.defs(b).get(l, []):
+                    if d[0] == 'st':
+                        rv = b.blocks[d[1]]['st'][d[2]]['rv']
+                        if rv['k'] in ('ref', 'rawptr'):
+                            out |= def_blocks({'k': 'copy', 'pl': {'l': rv['pl']['l'], 'p': []}}, depth + 1, seen)
+                        elif rv['k'] == 'use' and rv['ops'][0]['k'] in ('copy', 'move'):
+                            out |= def_blocks(rv['ops'][0], depth + 1, seen)
+                        else:
+                            out.add(d[1])        # where the value itself is made
+                    else:
+                        out.add(d[1])
+                return out
+            dc = def_blocks(t['args'][1])
+            de = def_blocks(t['args'][2])
+            if 1 <= (t['args'][1].get('pl', {}).get('l', 0)) <= b.argc or not dc or not de:
+                rep.ob('C03.5', 'get_refblock in %s at %s' % (short(b.path), b.where(bi)), True, 'operands come from the caller')
+                continue
+            cls_in = bool(dc & loop)
+            ent_in = bool(de & loop)
+            ok = not cls_in or ent_in
+            rep.ob('C03.5', 'get_refblock in %s at %s' % (short(b.path), b.where(bi)), ok,
+                   'cluster and entry are computed in the same iteration' if ok else 'the cluster changes per iteration, the entry is computed before the loop')
+            if not ok:
+                rep.violation('C03.5', 'C03.5:%s' % short(b.path), b.where(bi),
+                              '%s looks the reftable entry up once before its loop and uses it for every host cluster of the '
+                              'range: behind a refcount-block boundary the wrong refcount block is loaded and modified, the '
+                              'cluster that should be released keeps its refcount' % short(b.path))
+    rep.floor('get_refblock call sites', n, 3)
